@@ -171,7 +171,8 @@ def file_to_blocks(include_path, lazy_file, delimiter=None):
             parts = text.split(delimiter)
             yield from (
                 (line, lazy_file.path) if include_path else line
-                for line in [line + delimiter for line in parts[:-1]] + parts[-1:]
+                for line in [line + delimiter for line in parts[:-1]]
+                + (parts[-1:] if not text.endswith(delimiter) else [])
             )
         else:
             for line in f:
